@@ -20,40 +20,41 @@ Context {F : Type} {NF : Num F}.
 Variable gexp : nat -> list F -> list F.
 Notation param := (@param F).
 Notation update_parameter := (update_parameter gexp).
-Notation zip_update := (zip_update gexp).
+Notation update_trainable := (update_trainable gexp).
+Notation update_parameter_old := (update_parameter_old gexp).
+Notation zip_update_old := (zip_update_old gexp).
 Notation param_add := (param_add gexp).
 
 Definition pdflt : param := {| pk := Euclid; pdata := []; preq := false |}.
 
-Lemma zip_update_spec : forall (ps : list param) steps ps',
-  zip_update ps steps = Some ps' ->
-  length ps' = length ps /\
-  (forall i, preq (nth i ps pdflt) = false -> nth i ps' pdflt = nth i ps pdflt) /\
-  map (@pk F) ps' = map (@pk F) ps /\ map (@preq F) ps' = map (@preq F) ps.
+(* ---- the repaired update (a845d9f): split and zip over the trainable parameters only ---- *)
+Lemma update_trainable_spec : forall (ps : list param) steps,
+  length (update_trainable ps steps) = length ps /\
+  (forall i, preq (nth i ps pdflt) = false -> nth i (update_trainable ps steps) pdflt = nth i ps pdflt) /\
+  map (@pk F) (update_trainable ps steps) = map (@pk F) ps /\
+  map (@preq F) (update_trainable ps steps) = map (@preq F) ps.
 Proof.
-  induction ps as [|p ps IH]; intros steps ps' H.
-  - destruct steps; cbn in H; inversion H; subst; repeat split; auto.
+  induction ps as [|p ps IH]; intros steps; [cbn; repeat split; auto|].
+  cbn [Optim.update_trainable]. destruct (preq p) eqn:Hp.
   - destruct steps as [|d steps].
-    + cbn in H. inversion H; subst. repeat split; auto.
-    + cbn in H. destruct (preq p) eqn:Hp.
-      * destruct (Nat.eqb (length d) (pnumel p)); [|discriminate].
-        destruct (zip_update ps steps) as [r|] eqn:Hr; [|discriminate].
-        inversion H; subst. destruct (IH _ _ Hr) as (Hl & Hf & Hk & Hq).
-        repeat split.
-        -- cbn. now rewrite Hl.
-        -- intros [|i] Hi; cbn in *; [congruence | now apply Hf].
-        -- cbn. now rewrite Hk.
-        -- cbn. now rewrite Hq.
-      * destruct (zip_update ps steps) as [r|] eqn:Hr; [|discriminate].
-        inversion H; subst. destruct (IH _ _ Hr) as (Hl & Hf & Hk & Hq).
-        repeat split.
-        -- cbn. now rewrite Hl.
-        -- intros [|i] Hi; cbn in *; [reflexivity | now apply Hf].
-        -- cbn. now rewrite Hk.
-        -- cbn. now rewrite Hq.
+    + destruct (IH []) as (Hl & Hf & Hk & Hq). repeat split.
+      * cbn. now rewrite Hl.
+      * intros [|i] Hi; cbn in *; [reflexivity | now apply Hf].
+      * cbn. now rewrite Hk.
+      * cbn. now rewrite Hq.
+    + destruct (IH steps) as (Hl & Hf & Hk & Hq). repeat split.
+      * cbn. now rewrite Hl.
+      * intros [|i] Hi; cbn in *; [congruence | now apply Hf].
+      * cbn. now rewrite Hk.
+      * cbn. now rewrite Hq.
+  - destruct (IH steps) as (Hl & Hf & Hk & Hq). repeat split.
+    + cbn. now rewrite Hl.
+    + intros [|i] Hi; cbn in *; [reflexivity | now apply Hf].
+    + cbn. now rewrite Hk.
+    + cbn. now rewrite Hq.
 Qed.
 
-(* parameters with requires_grad = False are untouched by any update that returns *)
+(* parameters with requires_grad = False are untouched by every update that returns *)
 Lemma frozen_untouched : forall (ps : list param) step ps',
   update_parameter ps step = Some ps' ->
   length ps' = length ps /\
@@ -61,64 +62,60 @@ Lemma frozen_untouched : forall (ps : list param) step ps',
   map (@pk F) ps' = map (@pk F) ps /\ map (@preq F) ps' = map (@preq F) ps.
 Proof.
   intros ps step ps' H. unfold Optim.update_parameter in H.
-  destruct (split_sizes _ _) as [steps|]; [|discriminate]. eapply zip_update_spec; eassumption.
+  destruct (split_sizes _ _) as [steps|]; [|discriminate]. inversion H; subst. apply update_trainable_spec.
 Qed.
 
-(* ---- all parameters trainable: parameter i receives exactly its slice ---- *)
-Fixpoint update_all (ps : list param) (step : list F) : list param :=
-  match ps with
-  | [] => []
-  | p :: r => param_add p (firstn (pnumel p) step) :: update_all r (skipn (pnumel p) step)
-  end.
+(* offset of parameter i in the step vector: the elements of the TRAINABLE parameters before it *)
+Definition toffset (ps : list param) (i : nat) : nat :=
+  sumnat (map (@pnumel F) (filter (@preq F) (firstn i ps))).
 
-Lemma filter_all_true {X} (f : X -> bool) l : forallb f l = true -> filter f l = l.
+Lemma update_trainable_nth : forall (ps : list param) step i, i < length ps ->
+  sumnat (map (@pnumel F) (filter (@preq F) ps)) <= length step ->
+  nth i (update_trainable ps (split_go (map (@pnumel F) (filter (@preq F) ps)) step)) pdflt =
+  if preq (nth i ps pdflt)
+  then param_add (nth i ps pdflt) (firstn (pnumel (nth i ps pdflt)) (skipn (toffset ps i) step))
+  else nth i ps pdflt.
 Proof.
-  induction l as [|x l IH]; cbn; intros H; [reflexivity|].
-  apply andb_true_iff in H as [Hx Hl]. rewrite Hx. now rewrite IH.
+  induction ps as [|p ps IH]; intros step i Hi Hlen; [cbn in Hi; lia|].
+  cbn [filter Optim.update_trainable]. destruct (preq p) eqn:Hp.
+  - cbn [map split_go]. destruct i as [|i].
+    + cbn [nth]. rewrite Hp. reflexivity.
+    + cbn [nth]. cbn [filter map sumnat fold_right] in Hlen. rewrite Hp in Hlen. cbn [map sumnat fold_right] in Hlen.
+      rewrite IH; [| cbn in Hi; lia | rewrite skipn_length; unfold sumnat in *; lia].
+      unfold toffset. cbn [firstn filter]. rewrite Hp. cbn [map sumnat fold_right]. now rewrite skipn_add.
+  - destruct i as [|i].
+    + cbn [nth]. now rewrite Hp.
+    + cbn [nth]. cbn [filter] in Hlen. rewrite Hp in Hlen.
+      rewrite IH; [| cbn in Hi; lia | assumption].
+      unfold toffset. cbn [firstn filter]. now rewrite Hp.
 Qed.
 
-Lemma zip_update_all : forall (ps : list param) step,
-  forallb (@preq F) ps = true -> sumnat (map (@pnumel F) ps) <= length step ->
-  zip_update ps (split_go (map (@pnumel F) ps) step) = Some (update_all ps step).
-Proof.
-  induction ps as [|p ps IH]; intros step Hall Hlen; [reflexivity|].
-  cbn in Hall. apply andb_true_iff in Hall as [Hp Hall]. cbn in Hlen.
-  cbn [map split_go Optim.zip_update update_all]. rewrite Hp.
-  rewrite firstn_length_le by lia. rewrite Nat.eqb_refl.
-  rewrite IH; [reflexivity | assumption |]. rewrite skipn_length. unfold sumnat in *. lia.
-Qed.
-
-Lemma update_all_length ps step : length (update_all ps step) = length ps.
-Proof. revert step; induction ps as [|p ps IH]; intros; cbn; [reflexivity | now rewrite IH]. Qed.
-
-(* offset of parameter i in the step vector *)
-Definition offset (ps : list param) (i : nat) : nat := sumnat (map (@pnumel F) (firstn i ps)).
-
-Lemma update_all_nth : forall (ps : list param) step i, i < length ps ->
-  nth i (update_all ps step) pdflt =
-  param_add (nth i ps pdflt) (firstn (pnumel (nth i ps pdflt)) (skipn (offset ps i) step)).
-Proof.
-  induction ps as [|p ps IH]; intros step i Hi; [cbn in Hi; lia|].
-  destruct i as [|i]; [reflexivity|].
-  cbn [update_all nth]. cbn in Hi. rewrite IH by lia.
-  unfold offset. cbn [firstn map sumnat fold_right]. now rewrite skipn_add.
-Qed.
-
+(* MAIN: trainable parameter i receives exactly slice i of the trainable-only split (offset = elements of
+   the trainable parameters before it), frozen parameters stay untouched; the update returns exactly when
+   the step has one entry per trainable parameter element *)
 Lemma update_split : forall (ps : list param) step,
-  forallb (@preq F) ps = true -> length step = sumnat (map (@pnumel F) ps) ->
+  length step = sumnat (map (@pnumel F) (filter (@preq F) ps)) ->
   exists ps', update_parameter ps step = Some ps' /\ length ps' = length ps /\
     forall i, i < length ps ->
       nth i ps' pdflt =
-      param_add (nth i ps pdflt) (firstn (pnumel (nth i ps pdflt)) (skipn (offset ps i) step)).
+      if preq (nth i ps pdflt)
+      then param_add (nth i ps pdflt) (firstn (pnumel (nth i ps pdflt)) (skipn (toffset ps i) step))
+      else nth i ps pdflt.
 Proof.
-  intros ps step Hall Hlen. exists (update_all ps step). split; [|split].
-  - unfold Optim.update_parameter, split_sizes. rewrite (filter_all_true _ _ Hall).
-    rewrite Hlen, Nat.eqb_refl. apply zip_update_all; [assumption | lia].
-  - apply update_all_length.
-  - intros i Hi. now apply update_all_nth.
+  intros ps step Hlen. unfold Optim.update_parameter, split_sizes. rewrite Hlen, Nat.eqb_refl.
+  eexists. split; [reflexivity|]. split; [apply update_trainable_spec|].
+  intros i Hi. apply update_trainable_nth; [assumption | lia].
+Qed.
+Lemma update_returns_iff : forall (ps : list param) step,
+  (exists ps', update_parameter ps step = Some ps') <-> length step = sumnat (map (@pnumel F) (filter (@preq F) ps)).
+Proof.
+  intros ps step. split.
+  - intros [ps' H]. unfold Optim.update_parameter, split_sizes in H.
+    destruct (Nat.eqb _ _) eqn:E; [|discriminate]. apply Nat.eqb_eq in E. now symmetry.
+  - intros H. destruct (update_split ps step H) as [ps' [H1 _]]. eauto.
 Qed.
 
-(* ---- a frozen parameter makes the split raise ---- *)
+(* ---- history: the update before a845d9f ---- *)
 Lemma sum_filter_le (ps : list param) :
   sumnat (map (@pnumel F) (filter (@preq F) ps)) <= sumnat (map (@pnumel F) ps).
 Proof.
@@ -136,27 +133,77 @@ Proof.
     destruct (preq q); cbn; unfold sumnat in *; lia.
 Qed.
 
-Lemma update_with_frozen_raises : forall (ps : list param) step,
+(* a step with one entry per element of EVERY parameter (what the old, unfiltered Jacobian led to) made the
+   old split raise as soon as one parameter was frozen *)
+Lemma update_old_with_frozen_raises : forall (ps : list param) step,
   (exists p, In p ps /\ preq p = false /\ 0 < pnumel p) ->
   length step = sumnat (map (@pnumel F) ps) ->
-  update_parameter ps step = None.
+  update_parameter_old ps step = None.
 Proof.
-  intros ps step Hex Hlen. unfold Optim.update_parameter, split_sizes.
+  intros ps step Hex Hlen. unfold Optim.update_parameter_old, split_sizes.
   pose proof (sum_filter_lt ps Hex) as Hlt.
   replace (Nat.eqb _ (length step)) with false; [reflexivity|].
   symmetry. apply Nat.eqb_neq. lia.
 Qed.
 
-(* behind the raise: the zip pairs ALL parameters with the slices of the TRAINABLE ones.  With a
-   step that has one slice per trainable parameter (what the split asks for), a trainable parameter
-   that follows a frozen one is paired with nothing and stays as it was, whatever the step is *)
-Lemma zip_misaligned : forall (p q : param) step,
+(* behind the old raise: the zip paired ALL parameters with the slices of the TRAINABLE ones *)
+Lemma zip_misaligned_old : forall (p q : param) step,
   preq p = false -> preq q = true -> length step = pnumel q ->
-  update_parameter [p; q] step = Some [p; q].
+  update_parameter_old [p; q] step = Some [p; q].
+Proof.
+  intros p q step Hp Hq Hlen. unfold Optim.update_parameter_old, split_sizes. cbn [filter]. rewrite Hp, Hq.
+  cbn [map sumnat fold_right]. rewrite Nat.add_0_r, <- Hlen, Nat.eqb_refl.
+  cbn [split_go Optim.zip_update_old]. now rewrite Hp.
+Qed.
+(* the repaired update on the same input gives q its slice *)
+Lemma zip_aligned_new : forall (p q : param) step,
+  preq p = false -> preq q = true -> length step = pnumel q ->
+  update_parameter [p; q] step = Some [p; param_add q step].
 Proof.
   intros p q step Hp Hq Hlen. unfold Optim.update_parameter, split_sizes. cbn [filter]. rewrite Hp, Hq.
   cbn [map sumnat fold_right]. rewrite Nat.add_0_r, <- Hlen, Nat.eqb_refl.
-  cbn [split_go Optim.zip_update]. now rewrite Hp.
+  cbn [split_go Optim.update_trainable]. rewrite Hp, Hq. now rewrite firstn_all.
+Qed.
+
+(* ---- the Jacobian keeps exactly the trainable columns ---- *)
+Lemma filter_combine_snd {X} (f : param -> bool) : forall (a : list X) (b : list param), length a = length b ->
+  map snd (filter (fun jp => f (snd jp)) (combine a b)) = filter f b.
+Proof.
+  induction a as [|x a IH]; intros [|y b] H; cbn in *; try lia; [reflexivity|].
+  destruct (f y); cbn; rewrite IH by lia; reflexivity.
+Qed.
+Lemma zipw_fst_snd {X Y Z} (h : X -> Y -> Z) (l : list (X * Y)) :
+  zipw h (map fst l) (map snd l) = map (fun xy => h (fst xy) (snd xy)) l.
+Proof. induction l as [|[x y] l IH]; cbn; [reflexivity | now rewrite IH]. Qed.
+
+(* flatten_row_jacobian = the unfiltered flattening of the blocks of the trainable parameters against the
+   trainable parameters: the system is the one in the trainable columns; the blocks of frozen parameters
+   are irrelevant *)
+Definition trainable_blocks (Jr : list (list F)) (ps : list param) : list (list F) :=
+  map fst (filter (fun jp => @preq F (snd jp)) (combine Jr ps)).
+Lemma flatten_trainable_columns (Jr : list (list F)) (ps : list param) : length Jr = length ps ->
+  flatten_row_jacobian Jr ps = flatten_row_jacobian_old (trainable_blocks Jr ps) (filter (@preq F) ps).
+Proof.
+  intros H. unfold flatten_row_jacobian, flatten_row_jacobian_old, trainable_blocks.
+  rewrite <- (filter_combine_snd (@preq F) Jr ps H). now rewrite zipw_fst_snd.
+Qed.
+Lemma flatten_all_trainable (Jr : list (list F)) (ps : list param) :
+  forallb (@preq F) ps = true -> flatten_row_jacobian Jr ps = flatten_row_jacobian_old Jr ps.
+Proof.
+  intros Hall. unfold flatten_row_jacobian, flatten_row_jacobian_old. f_equal.
+  revert ps Hall. induction Jr as [|j Jr IH]; intros [|p ps] Hall; cbn in *; try reflexivity.
+  apply andb_true_iff in Hall as [Hp Hall]. rewrite Hp. cbn. now rewrite IH.
+Qed.
+Lemma flatten_frozen_irrelevant : forall (Jr Jr' : list (list F)) (ps : list param),
+  length Jr = length ps -> length Jr' = length ps ->
+  (forall i, preq (nth i ps pdflt) = true -> nth i Jr [] = nth i Jr' []) ->
+  flatten_row_jacobian Jr ps = flatten_row_jacobian Jr' ps.
+Proof.
+  intros Jr Jr' ps H1 H2 Hag. unfold flatten_row_jacobian. f_equal.
+  revert Jr' ps H1 H2 Hag. induction Jr as [|j Jr IH]; intros [|j' Jr'] [|p ps] H1 H2 Hag; cbn in *; try lia; [reflexivity|].
+  destruct (preq p) eqn:Hp.
+  - cbn. rewrite (Hag 0%nat Hp). rewrite (IH Jr' ps) by (try lia; intros i Hi; exact (Hag (S i) Hi)). reflexivity.
+  - apply (IH Jr' ps); try lia. intros i Hi. exact (Hag (S i) Hi).
 Qed.
 
 (* ---- LieType.add_ per kind ---- *)
@@ -373,7 +420,7 @@ Lemma gn_step_system (pb : @problem R) o :
     solver (tA o) (tb o) = Some (tD o) /\
     update_parameter gexp (pbP pb) (tD o) = Some (tP o).
 Proof.
-  unfold gn_step. destruct (assemble corr pb) as [[[Rv W] J]|]; [|discriminate].
+  unfold gn_step, gn_step_gen. destruct (assemble corr pb) as [[[Rv W] J]|]; [|discriminate].
   destruct (gn_system Rv W J) as [A b] eqn:Es.
   destruct (solver A b) as [D|] eqn:ED; [|discriminate].
   destruct (update_parameter gexp (pbP pb) D) as [ps|] eqn:EU; [|discriminate].
@@ -387,7 +434,7 @@ Lemma lm_trial_system Aprev JT Rv lam ps o :
   tA o = lm_damp lam Aprev /\ tb o = lm_b JT Rv /\ solver (tA o) (tb o) = Some (tD o) /\
   update_parameter gexp ps (tD o) = Some (tP o).
 Proof.
-  unfold lm_trial. destruct (solver _ _) as [D|] eqn:ED; [|discriminate].
+  unfold lm_trial, lm_trial_gen. destruct (solver _ _) as [D|] eqn:ED; [|discriminate].
   destruct (update_parameter gexp ps D) as [ps'|] eqn:EU; [|discriminate].
   intros H. inversion H; subst; clear H. cbn. auto.
 Qed.
@@ -402,25 +449,44 @@ Proof.
   intros H. inversion H; subst; clear H. exists W, J. split; [reflexivity|]. split; [unfold lm_JT; now destruct W | reflexivity].
 Qed.
 
-(* a step of the faithful model with a frozen parameter (with at least one element) never happens:
-   whatever the solver returns for the full Jacobian (one entry per column = per parameter element),
-   the split over the trainable sizes raises *)
-Lemma gn_step_frozen_raises (pb : @problem R) :
+(* the step happens exactly when the solver returns one entry per trainable parameter element (= per column
+   of the filtered Jacobian); then frozen parameters are untouched *)
+Lemma gn_step_returns (pb : @problem R) Rv W J D :
+  assemble corr pb = Some (Rv, W, J) ->
+  solver (fst (gn_system Rv W J)) (snd (gn_system Rv W J)) = Some D ->
+  length D = sumnat (map (@pnumel R) (filter (@preq R) (pbP pb))) ->
+  exists o, gn_step corr gexp solver pb = Some o /\ tD o = D /\ length (tP o) = length (pbP pb) /\
+    forall i, (i < length (pbP pb))%nat ->
+      nth i (tP o) pdflt =
+      if preq (nth i (pbP pb) pdflt)
+      then param_add gexp (nth i (pbP pb) pdflt)
+             (firstn (pnumel (nth i (pbP pb) pdflt)) (skipn (toffset (pbP pb) i) D))
+      else nth i (pbP pb) pdflt.
+Proof.
+  intros Ha Hs Hl. unfold gn_step, gn_step_gen. rewrite Ha. destruct (gn_system Rv W J) as [A b]. cbn in Hs. rewrite Hs.
+  destruct (update_split gexp (pbP pb) D Hl) as (ps' & HU & HL & HN). rewrite HU.
+  eexists. split; [reflexivity|]. cbn. auto.
+Qed.
+
+(* history: before a845d9f a step with a frozen parameter (with at least one element) never happened:
+   whatever the solver returned for the full Jacobian (one entry per column = per parameter element),
+   the split over the trainable sizes raised *)
+Lemma gn_step_old_frozen_raises (pb : @problem R) :
   (exists p, In p (pbP pb) /\ preq p = false /\ (0 < pnumel p)%nat) ->
   (forall A b D, solver A b = Some D -> length D = sumnat (map (@pnumel R) (pbP pb))) ->
-  gn_step corr gexp solver pb = None.
+  gn_step_old corr gexp solver pb = None.
 Proof.
-  intros Hex Hlen. unfold gn_step. destruct (assemble corr pb) as [[[Rv W] J]|]; [|reflexivity].
+  intros Hex Hlen. unfold gn_step_old, gn_step_gen. destruct (assemble_old corr pb) as [[[Rv W] J]|]; [|reflexivity].
   destruct (gn_system Rv W J) as [A b]. destruct (solver A b) as [D|] eqn:ED; [|reflexivity].
-  now rewrite (update_with_frozen_raises gexp (pbP pb) D Hex (Hlen _ _ _ ED)).
+  now rewrite (update_old_with_frozen_raises gexp (pbP pb) D Hex (Hlen _ _ _ ED)).
 Qed.
-Lemma lm_trial_frozen_raises Aprev JT Rv lam (ps : list (@param R)) :
+Lemma lm_trial_old_frozen_raises Aprev JT Rv lam (ps : list (@param R)) :
   (exists p, In p ps /\ preq p = false /\ (0 < pnumel p)%nat) ->
   (forall A b D, solver A b = Some D -> length D = sumnat (map (@pnumel R) ps)) ->
-  lm_trial gexp solver Aprev JT Rv lam ps = TRaise \/ lm_trial gexp solver Aprev JT Rv lam ps = TSolverFailed.
+  lm_trial_old gexp solver Aprev JT Rv lam ps = TRaise \/ lm_trial_old gexp solver Aprev JT Rv lam ps = TSolverFailed.
 Proof.
-  intros Hex Hlen. unfold lm_trial. destruct (solver _ _) as [D|] eqn:ED; [|now right].
-  left. now rewrite (update_with_frozen_raises gexp ps D Hex (Hlen _ _ _ ED)).
+  intros Hex Hlen. unfold lm_trial_old, lm_trial_gen. destruct (solver _ _) as [D|] eqn:ED; [|now right].
+  left. now rewrite (update_old_with_frozen_raises gexp ps D Hex (Hlen _ _ _ ED)).
 Qed.
 End Solver.
 
@@ -718,17 +784,29 @@ Definition frozen_pb : @problem R :=
      pbW := None; pbC := [CTrivial];
      pbP := [{| pk := Euclid; pdata := [0]; preq := true |}; {| pk := Euclid; pdata := [0]; preq := false |}] |}.
 
-Lemma frozen_pb_assemble corr : assemble corr frozen_pb = Some ([1], None, [[1; 1]]).
+(* before a845d9f: the full Jacobian [1 1], and the step raised for every total solver *)
+Lemma frozen_pb_assemble_old corr : assemble_old corr frozen_pb = Some ([1], None, [[1; 1]]).
 Proof. reflexivity. Qed.
-
-Lemma frozen_pb_raises corr gexp solver :
+Lemma frozen_pb_old_raises corr gexp solver :
   (forall A b, exists D, solver A b = Some D /\ length D = mcols A) ->
-  gn_step corr gexp solver frozen_pb = None.
+  gn_step_old corr gexp solver frozen_pb = None.
 Proof.
-  intros Hs. unfold gn_step. rewrite frozen_pb_assemble. cbn [gn_system].
+  intros Hs. unfold gn_step_old, gn_step_gen. rewrite frozen_pb_assemble_old. cbn [gn_system].
   destruct (Hs [[1; 1]] (vneg [1])) as [D [HD HL]]. rewrite HD.
-  rewrite (update_with_frozen_raises gexp (pbP frozen_pb) D); [reflexivity | | exact HL].
+  rewrite (update_old_with_frozen_raises gexp (pbP frozen_pb) D); [reflexivity | | exact HL].
   exists {| pk := Euclid; pdata := [0]; preq := false |}. cbn. repeat split; auto.
+Qed.
+(* repaired: the system is the trainable column [1], the trainable parameter moves by the solver's
+   answer, the frozen one is untouched *)
+Lemma frozen_pb_assemble corr : assemble corr frozen_pb = Some ([1], None, [[1]]).
+Proof. reflexivity. Qed.
+Lemma frozen_pb_steps corr gexp (solver : @mat R -> list R -> option (list R)) d :
+  solver [[1]] (vneg [1]) = Some [d] ->
+  exists o, gn_step corr gexp solver frozen_pb = Some o /\ tA o = [[1]] /\ tD o = [d] /\
+            map (@pdata R) (tP o) = [[0 + d]; [0]] /\ map (@preq R) (tP o) = [true; false].
+Proof.
+  intros Hs. unfold gn_step, gn_step_gen. rewrite frozen_pb_assemble. cbn [gn_system]. rewrite Hs.
+  eexists. split; [reflexivity|]. repeat split; reflexivity.
 Qed.
 
 (* the same step when nothing is frozen: it happens, and the parameters move by the solver's answer *)
@@ -742,7 +820,7 @@ Lemma free_pb_steps corr gexp (solver : @mat R -> list R -> option (list R)) d1 
   exists o, gn_step corr gexp solver free_pb = Some o /\ tD o = [d1; d2] /\
             map (@pdata R) (tP o) = [[0 + d1]; [0 + d2]].
 Proof.
-  intros Hs. unfold gn_step.
+  intros Hs. unfold gn_step, gn_step_gen.
   assert (Ha : assemble corr free_pb = Some ([1], None, [[1; 1]])) by reflexivity.
   rewrite Ha. cbn [gn_system]. rewrite Hs. eexists. split; [reflexivity|]. split; reflexivity.
 Qed.
